@@ -1,7 +1,7 @@
 #!/bin/bash
 # setup_cmd: offline build of everything the checks need (libsodium fork, module files, engine binaries).
 set -euo pipefail
-cd /verif
+cd "$(dirname "${BASH_SOURCE[0]}")/.."
 export GOFLAGS=-mod=mod GOPROXY=off
 unset GOTOOLCHAIN GOSUMDB || true
 ./scripts/gen_build.sh
